@@ -38,7 +38,7 @@ REGEX_FILES = {
     'C18': ['markdown/util.py', 'markdown/postprocessors.py'],
 }
 
-add('C01', ['C01Spec', 'C01', 'C01b', 'C01c', 'C01d'], ['corr.doc'] + PIPE,
+add('C01', ['C01Spec', 'C01', 'C01b', 'C01c', 'C01d', 'C01e', 'C01f'], ['corr.doc'] + PIPE,
     'Lean 4: specification `spec : Doc → html` of the construct grammar + print; theorems on the pipeline model for sub-grammars; spec and model both tied to the implementation by correspondence',
     'PARTIAL: the print-then-parse theorem is proved only for the sub-grammar named in Props/C01*.lean; for the rest of the grammar the Lean `spec` is compared with the implementation by correspondence and search only.')
 add('C02', ['C02Block', 'C02Inline', 'C02X'], PIPE + ['corr.extract', 'corr.code', 'corr.attrlist', 'corr.pipelinex'],
@@ -53,19 +53,19 @@ add('C04', ['C04', 'C04Text'], ['corr.extract', 'corr.htmltok', 'corr.pipelineh'
 add('C05', ['C05Block', 'C05', 'C05Amp', 'C05Full', 'C05X', 'C14'], PIPE + ['corr.serializer', 'corr.readers'],
     'Lean 4 proofs: vocabulary/void invariant of every tree the block (and inline) model builds + serializer round-trip theorem (strict reader accepts the output and reads back the tree)',
     'PARTIAL: the composition to the final output string is proved as far as Props/C05*.lean state; the `&`/entity-stash case rests on correspondence. "Entity reference" is read as the code reads it (digit-initial names allowed).')
-add('C06', ['C06Block', 'C06Inline', 'C06'], PIPE,
+add('C06', ['C06Block', 'C06Inline', 'C06', 'C06Links'], PIPE,
     'Lean 4 conservation invariants: letters(tree) ++ letters(pending blocks) is constant through every block processor; inline patterns conserve the flattened text',
     'PARTIAL: block half and inline half proved separately as far as Props/C06*.lean state; `isLetter` is an arbitrary class disjoint from markup characters.')
-add('C07', ['C07Block', 'C07'], PIPE + ['corr.normalize'],
+add('C07', ['C07Block', 'C07', 'C07X'], PIPE + ['corr.normalize', 'corr.pipelinex'],
     'Lean 4 proof on the pipeline model: a text in which every character of the GENERATED ESCAPED_CHARS table is backslash-escaped parses to a single paragraph (all recognisers proved inert) and renders as itself; table membership discharged by decide over the regenerated table',
     'PARTIAL until Props/C07.lean carries the end-to-end theorem; extensions that extend the escapable set (tables, smarty) are covered for the block stage by the `extra` parameter, smarty only by search.')
-add('C08', ['C08Block', 'C08Inline', 'C08'], PIPE,
+add('C08', ['C08Block', 'C08Inline', 'C08', 'C08Src'], PIPE,
     'Lean 4 locality proofs on the block model (processors never look past blocks[0]; the parent is read only through its last child) and stash-counter independence of the inline model',
     'PARTIAL: as far as Props/C08*.lean state; the composition of both halves rests on correspondence where not proved.')
-add('C09', ['C09', 'C09Doc'], ['corr.normalize', 'corr.pipeline'],
+add('C09', ['C09', 'C09Doc', 'C09X'], ['corr.normalize', 'corr.pipeline', 'corr.pipelinex'],
     'Lean 4 proofs about the model of NormalizeWhitespace (line endings, tabs, STX/ETX, whitespace-only lines, leading/trailing blank lines), stated for the step list regenerated from the source; unit correspondence for tab lengths 0-8',
     'PARTIAL: the normalisation theorems are full; the lift "the rest of convert reads only the normalised text" is by construction of the pipeline model and end-to-end correspondence. F-C09-1 (whitespace-only first line) was repaired (fix: commit a0e7e3c); the first-line theorems are now unconditional.')
-add('C10', ['C10', 'C10b', 'C10c', 'C10X', 'C10XPost', 'C09'], PIPE + ['corr.pipelinex'],
+add('C10', ['C10', 'C10b', 'C10c', 'C10X', 'C10XPost', 'C10XTree', 'C10XToc', 'C10XTocAttr', 'C10XLate', 'C10XRaw', 'C10XC', 'C10XBlock', 'C10XCAll', 'C09'], PIPE + ['corr.pipelinex'],
     'Lean 4 proofs: input cannot forge placeholders (normalisation strips STX/ETX), post-conditions of every restore step, placeholder invariants of the inline model on the pattern subset that cannot leak; the model leaks where the code leaks (kernel-checked)',
     'PARTIAL: link/reference/image/autolink/html/entity patterns and extensions are outside the proved subset (F-C10-1/2/3 live there).')
 add('C11', ['C11', 'C11Census'], [],
@@ -77,15 +77,15 @@ add('C12', ['C12', 'C11Census'], [],
 add('C13', ['C13'], ['corr.registry'],
     'Lean 4 refinement proof (registry model refines the registration-log spec for every op history) + op-sequence correspondence with util.Registry',
     'Priorities are modelled as integers (the harness scales binary-fraction floats); NaN priorities and str items are outside the domain.')
-add('C14', ['C14', 'C14Doc', 'C14DocDomain'], ['corr.serializer', 'corr.pipeline', 'corr.readers'],
+add('C14', ['C14', 'C14Doc', 'C14DocDomain', 'C14X'], ['corr.serializer', 'corr.pipeline', 'corr.readers', 'corr.pipelinex'],
     'Lean 4 proofs for all strings and trees: escape/read-back, idempotence, entity pass-through, serialise-then-strict-read round trip in both formats, html/xhtml read back equal',
     'Tree level full; document level PARTIAL (the format leaks into stashed HTML through md.serializer inside HtmlInlineProcessor.unescape, toc, md_in_html): checked by correspondence and search. F-C14-1 (void element with text) is a kernel-checked counterexample.')
-add('C15', ['C15', 'C15Inline', 'C15Forms'], PIPE,
+add('C15', ['C15', 'C15Inline', 'C15Forms', 'C15Text'], PIPE,
     'Lean 4 proofs on the block model: the reference-definition recogniser accepts every title spelling, a definition adds exactly one map entry and no node, position independence, label normalisation',
     'PARTIAL: the rendering of the resolved link (inline stage) rests on correspondence where not proved.')
 add('C16', ['C16Tables', 'C16Triggers', 'C16AttrList', 'C16Fenced', 'C16BlockExt', 'C16Order', 'C16Pipeline', 'C16Render',
-            'C16RenderFence', 'C16RenderWiki', 'C16RenderX'],
-    ['corr.tables', 'corr.triggers', 'corr.attrlist', 'corr.code', 'corr.blockext', 'corr.dispatch', 'corr.pipelinex'],
+            'C16RenderFence', 'C16RenderWiki', 'C16RenderX', 'C16Meta'],
+    ['corr.tables', 'corr.triggers', 'corr.attrlist', 'corr.code', 'corr.blockext', 'corr.dispatch', 'corr.pipelinex', 'corr.meta'],
     'Lean 4 proofs: table cell splitting/row width/alignment theorems, attribute-list print/parse round trip, entry recognisers of every extension need their trigger + dispatcher inertness theorem (non-interference), fenced-code inertness',
     'PARTIAL: md_in_html, smarty, codehilite, meta, legacy_* are not modelled (search only); documented rendering is proved per component, compositions by correspondence/search.')
 add('C17', ['C17', 'C17Doc', 'C16Order'], ['corr.toc', 'corr.pipelinex'],
